@@ -65,7 +65,7 @@ func init() {
 		p.SameAliasPct = 30
 		p.DiffAliasPct = 35
 	}), Oracle: oracle.C14}
-	Props["C16"] = &PropDef{Profile: prof("C16", func(p *gen.Profile) { p.OutFilePct = 0; p.MaxParams = 6 }), Mutate: c16Mutate, Oracle: oracle.C16}
+	Props["C16"] = &PropDef{Profile: prof("C16", func(p *gen.Profile) { p.OutFilePct = 0; p.MaxParams = 6; p.HugePct = 1 }), Mutate: c16Mutate, Oracle: oracle.C16}
 	Props["C19"] = &PropDef{Profile: prof("C19", func(p *gen.Profile) {
 		p.Conflict = true
 		p.MinDeps = 2
